@@ -1,54 +1,43 @@
 package main
 
-// Summary of the float share comparison used by the fair queue sort: CompUsageRatioSeparately(la, lg, lf, ra, rg, rf)
-// is replaced by the comparison of an uninterpreted integer "share" per side, a function of the identity of the
-// fair-max vector handed in for that side (usage and guarantee vectors are fresh clones on every call and carry no
-// identity; the harness gives every candidate its own fair-max object). Any such function induces a total preorder,
-// which is all a sort relies on; a comparator that hands the WRONG fair-max vector for a candidate (e.g. indexing a
-// side slice by position after swaps) gets a different share for the same candidate and is exposed by the
-// permutation-invariance harness.
+// Summary of the float share comparison used by the fair queue sort, exact on the harness' domain:
+// CompUsageRatioSeparately(la, lg, lf, ra, rg, rf) with single-type vectors over the type "k0", no guarantee and a
+// positive fair-max is the comparison of la[k0]/lf[k0] with ra[k0]/rf[k0]; the summary compares the two ratios by
+// cross-multiplication on integers (no floats in the query). The harness only builds such vectors; anything else
+// (guarantees, several types, non-positive fair-max) is refused. The vectors are read from the arguments actually
+// handed in, so a comparator that pairs a candidate with the WRONG fair-max vector compares the wrong ratio.
 
 import (
-	"fmt"
 	"go/token"
+	"go/types"
 
 	"golang.org/x/tools/go/ssa"
 )
 
-func refID(v Value) string {
-	r, ok := v.(VRef)
-	if !ok || len(r.alts) != 1 {
-		notEncodable("share summary needs concrete vector identities")
-	}
-	if r.alts[0].obj == nil {
-		return "nil"
-	}
-	if r.alts[0].obj.name != "" {
-		return r.alts[0].obj.name
-	}
-	return fmt.Sprintf("%d", r.alts[0].obj.id)
-}
-
 func shareSummary(x *Exec, fr *Frame, fn *ssa.Function, a []Value, p token.Pos) Value {
-	// a union of fair-max objects (index chosen symbolically): merge the per-object shares
-	share := func(v Value) *Term {
-		r := v.(VRef)
-		var t *Term
-		for i := len(r.alts) - 1; i >= 0; i-- {
-			al := r.alts[i]
-			id := "nil"
-			if al.obj != nil {
-				id = fmt.Sprintf("%d", al.obj.id)
-			}
-			s := x.input("share."+id, "share", 64, 0, 1000, true)
-			if t == nil {
-				t = s
-			} else {
-				t = mkIte(al.g, s, t)
+	qt := fn.Signature.Params().At(0).Type().(*types.Pointer).Elem().Underlying().(*types.Struct).Field(0).Type().Underlying().(*types.Map).Elem()
+	get := func(v Value) *Term {
+		res := x.load(fr, asRef(v), p)
+		st, ok := res.(VStruct)
+		if !ok {
+			notEncodable("share summary: not a resource vector")
+		}
+		val, _ := x.mapLookup(fr, asRef(st.f[0]), concreteStr("k0"), qt, p)
+		return asInt(val)
+	}
+	for _, gi := range []int{1, 4} {
+		r := asRef(a[gi])
+		for _, al := range r.alts {
+			if al.obj != nil && !al.g.isFalse() {
+				// must be infeasible: checked by the solver like an unwinding obligation (sat ⇒ run inconclusive)
+				x.addObl("unwind", "share summary used outside its domain (a guaranteed resource is set)", x.framePos(fr, p), mkAnd(fr.cur, al.g), ts.False)
 			}
 		}
-		return t
 	}
-	l, r := share(a[2]), share(a[5])
-	return VInt{mkIte(mkCmp(OSlt, l, r), mkConstS(64, -1), mkIte(mkCmp(OSlt, r, l), mkConst(64, 1), mkConst(64, 0)))}
+	la, lf, ra, rf := get(a[0]), get(a[2]), get(a[3]), get(a[5])
+	x.assumes = append(x.assumes, mkImplies(x.alive(fr.cur), mkAnd(mkCmp(OSlt, mkConst(64, 0), lf), mkCmp(OSlt, mkConst(64, 0), rf))))
+	l := mkBin(OMul, la, rf)
+	r := mkBin(OMul, ra, lf)
+	// CompUsageRatioSeparately: 1 if the left share is larger, -1 if the right share is larger
+	return VInt{mkIte(mkCmp(OSlt, r, l), mkConst(64, 1), mkIte(mkCmp(OSlt, l, r), mkConstS(64, -1), mkConst(64, 0)))}
 }
